@@ -597,6 +597,12 @@ class Representation:
     def _set_generator(self, generator, matrix, compute_inverse=True,
                        base_ring=None):
 
+        # the representation owns its matrices: a generator must not
+        # change (and get out of sync with its stored inverse) when the
+        # caller later modifies the array it passed in, or when a
+        # representation this one was copied from is modified
+        matrix = np.array(matrix)
+
         shape = matrix.shape
 
         if self._dim is None:
